@@ -294,6 +294,7 @@ def generate(seed, prop):
             op = {"op": name, "path": "/simfs/s/" + rng.choice(["a", "b", "c"]) + ".json", "i": rng.randrange(8)}
             if name != "load_into" and n_process < 2 and rng.random() < 0.35:
                 op["process"] = True
+                op["long_first"] = rng.random() < 0.5
                 n_process += 1
             if rng.random() < fault_rate:
                 op["fault"] = {"kind": "eio_read", "at": rng.choice([0, 0, 1])}
@@ -353,24 +354,26 @@ class State:
     pass
 
 
-def _records(st):
+def _records(st, long=False):
     H = hv()
     g = np_rng(st.world["records"]["k"])
     n, dt = st.world["records"]["n"], 1.0 / st.world["records"]["rate"]
+    if long:
+        n = 33000                                  # above the 2**15 floor of the automatic FFT length
     out = []
     for _ in range(2):
         out.append(H.SeismicRecording3C(*[H.TimeSeries(g.normal(0, 1, n), dt) for _ in range(3)]))
     return out
 
 
-def run_with(st, settings):
-    """Process (or preprocess) the fixed recordings with `settings`; returns a
+def run_with(st, settings, long=False):
+    """Process (or preprocess) the fixed recordings with `settings` - the live object itself, as a user does; returns a
     comparable digest or ('raised', class name)."""
     H = hv()
     import contextlib
     import io
-    recs = _records(st)
-    s = copy.deepcopy(settings)
+    recs = _records(st, long)
+    s = settings
     try:
         with warnings.catch_warnings(), contextlib.redirect_stdout(io.StringIO()):
             warnings.simplefilter("ignore")
@@ -647,6 +650,14 @@ def execute(triple, prop):
                             src -= 1
                         target = len(st.objs) - 1
                     if op.get("process") and 0 <= src < len(st.objs) and same_content(content(st.objs[src]), saved_content):
+                        if op.get("long_first") and type(got).__name__ not in PRE:
+                            # the original has been in use: a longer recording set was processed with it before
+                            b_src = content(st.objs[src])
+                            run_with(st, st.objs[src], long=True)
+                            ctx.check(same_content(b_src, content(st.objs[src])), "processing_changed_settings",
+                                      lambda: f"process() changed the settings object it was given: "
+                                              f"{first_diff(b_src, content(st.objs[src]))}", key={"cls": saved_content["class"]})
+                            ctx.probe("original_used_before_on_longer_records")
                         r1, r2 = run_with(st, st.objs[src]), run_with(st, got)
                         ctx.check(r1 == r2, "processing_differs_after_reload",
                                   lambda: f"{saved_content['class']}: processing with the reloaded settings gives {str(r2)[:80]} "
